@@ -117,3 +117,60 @@ func TestVerifStandin_C11_Frames(t *testing.T) {
 	}
 	fmt.Printf("STANDIN-STAT name=c11_frames cases=%d distinct=%d\n", cases, len(distinct))
 }
+
+// Second part of the stand-in: the acceptance direction of the frame-length bounds ("every packet sent is received with
+// exactly the payload that was sent", quantified up to the 8 MiB limit). The contract on ParsePacket proves the
+// rejection direction (err == nil ==> 64 <= length <= 8 MiB) for all inputs; that a frame inside the bounds IS
+// delivered depends on the io.Reader delivering the bytes, which the prover does not model.
+// Bound: frame lengths {64, 65, 8 MiB - 1, 8 MiB} (payload = length - 64), each followed by a small packet on the
+// same AES-CTR stream, readers returning everything or half per Read.
+func TestVerifStandin_C11_SizeLimit(t *testing.T) {
+	seed := int64(1)
+	if s := os.Getenv("VERIF_SEED"); s != "" {
+		if v, err := strconv.ParseInt(s, 10, 64); err == nil {
+			seed = v
+		}
+	}
+	r := rand.New(rand.NewSource(seed))
+	cases, distinct := 0, map[string]bool{}
+	lengths := []int{64, 65, 8<<20 - 1, 8 << 20}
+	readers := map[string]func(io.Reader) io.Reader{
+		"whole": func(x io.Reader) io.Reader { return x },
+		"half":  iotest.HalfReader,
+	}
+	for li, L := range lengths {
+		big := make([]byte, L-64)
+		r.Read(big)
+		small := make([]byte, 17)
+		r.Read(small)
+		var wire bytes.Buffer
+		enc, _ := c11Streams(seed + int64(900+li))
+		for _, p := range [][]byte{big, small} {
+			pk, err := NewPacket(p)
+			if err != nil {
+				t.Fatal(err)
+			}
+			b := pk.marshal()
+			enc.XORKeyStream(b, b)
+			wire.Write(b)
+		}
+		for rn, mk := range readers {
+			_, dec := c11Streams(seed + int64(900+li))
+			rd := mk(bytes.NewReader(wire.Bytes()))
+			t.Run("rc_frame_at_length_bound_not_delivered", func(t *testing.T) {
+				for k, want := range [][]byte{big, small} {
+					cases++
+					distinct[fmt.Sprintf("%d/%s/%d", L, rn, k)] = true
+					got, err := ParsePacket(rd, dec)
+					if err != nil {
+						t.Fatalf("frame of length %d (payload %d bytes), packet %d on the stream, reader %s: %v", L, L-64, k, rn, err)
+					}
+					if !bytes.Equal(got.Payload, want) {
+						t.Fatalf("frame of length %d, packet %d, reader %s: payload differs", L, k, rn)
+					}
+				}
+			})
+		}
+	}
+	fmt.Printf("STANDIN-STAT name=c11_sizelimit cases=%d distinct=%d\n", cases, len(distinct))
+}
